@@ -1931,6 +1931,9 @@ func (s *ImmuStore) performPrecommit(tx *Tx, entries []*EntrySpec, ts int64, blT
 	tx.header.Ts = ts
 
 	tx.header.BlTxID = blTxID
+	// tx holders are pooled: without this the first transaction (blTxID == 0) would
+	// inherit the BlRoot of whatever the holder was used for before
+	tx.header.BlRoot = [sha256.Size]byte{}
 
 	if blTxID > 0 {
 		blRoot, err := s.aht.RootAt(blTxID)
